@@ -2316,3 +2316,17 @@ for _fl in ("DependencyFlags", "FileFlags", "ScriptletFlags", "FileVerifyFlags")
         for _mn, _fn in (("empty", _flags_empty), ("all", _flags_all), ("insert", _flags_insert), ("remove", _flags_remove), ("contains", _flags_contains),
                          ("is_empty", _flags_is_empty), ("union", _flags_union)):
             I.setdefault((_pre % _fl) + _mn, _fn)
+
+
+@intr("<_ as Iterator>::count")
+def _iter_count(ex, args, f):
+    """count() of an iterator model: consume it (for str::chars under the ASCII bound this is the byte length)"""
+    it = deref_all(ex, args[0])
+    n = 0
+    while True:
+        nx = _iter_next(ex, it, f)
+        if nx.variant == "None":
+            return usize(n)
+        n += 1
+        if n > 100000:
+            raise Unsupported("count: iterator does not end")
